@@ -107,7 +107,8 @@ theorem concludePar_spec (s s' : DC) (p : Par) (hp : s.openPars.getLast? = some 
 theorem commencePar_spec (html : Bool) (s s' : DC) (x : Xml) (c : Bool) (h : s.commencePar html (some x) c = .ok s') :
     ∃ p0, s'.openPars = s.openPars ++ [p0] ∧ p0.runs = s.queued ∧ p0.elem = x.id? ∧
       leafParsL s'.root = leafParsL s.root ∧ s'.queued = [] ∧ s'.ranges = s.ranges ∧ s'.bullets = s.bullets ∧
-      (c = true → p0.lineage = tableLineage) ∧ getPStyle x = .ok p0.style := by
+      (c = true → p0.lineage = tableLineage) ∧ getPStyle x = .ok p0.style ∧
+      (c = false → ∃ sb, s.setCaret (some 4) (some x.localname) = .ok sb ∧ p0.lineage = sb.lineage) := by
   unfold DC.commencePar at h
   obtain ⟨s1, h1, h⟩ := bind_ok h
   obtain ⟨hs, _, h⟩ := bind_ok h
@@ -115,10 +116,11 @@ theorem commencePar_spec (html : Bool) (s s' : DC) (x : Xml) (c : Bool) (h : s.c
   have := pure_ok h; subst this
   have f1 := setCaret_frame s s1 _ _ h1
   refine ⟨{ elem := x.id?, htmlStyle := hs, style := st,
-            lineage := if (some x).isSome && c then tableLineage else s1.lineage, runs := s1.queued }, ?_, ?_, rfl, f1.leaves, rfl, f1.ranges, f1.bullets, ?_, hst⟩
+            lineage := if (some x).isSome && c then tableLineage else s1.lineage, runs := s1.queued }, ?_, ?_, rfl, f1.leaves, rfl, f1.ranges, f1.bullets, ?_, hst, ?_⟩
   · simp [f1.openPars]
   · simp [f1.queued]
   · intro hc; simp [hc]
+  · intro hc; exact ⟨s1, by simpa using h1, by simp [hc]⟩
 
 theorem modTop_queued (s : DC) (f : Par → Par) : (s.modTop f).queued = s.queued := by
   unfold DC.modTop; split <;> rfl
@@ -153,7 +155,9 @@ theorem walk_paragraph (cfg : PartCfg) (num : Dict Str (List NumAttr)) (c : Bool
       inlineTextL cfg ks = .ok body ∧ getBullet s.bullets (.elem i p t m a tx tl ks) i = .ok bb ∧
       parText par = sjoin (s.queued.map (·.text)) ++ bb.2 ++ body ∧
       s'.bullets = (listPosition bb.1 (.elem i p t m a tx tl ks) i).1 ∧
-      (c = true → par.lineage = tableLineage) ∧ getPStyle (.elem i p t m a tx tl ks) = .ok par.style := by
+      (c = true → par.lineage = tableLineage) ∧ getPStyle (.elem i p t m a tx tl ks) = .ok par.style ∧
+      (c = false → ∃ sa sb, s.setCaret (some 4) (some t.name) = .ok sa ∧
+        sa.setCaret (some 4) (some (Xml.elem i p t m a tx tl ks).localname) = .ok sb ∧ par.lineage = sb.lineage) := by
   have hd := elemDepth_par _ hx rfl
   have hl : ((Xml.elem i p t m a tx tl ks).ptag == hyperlinkTag) = false := by rw [hx]; exact paragraphTag_ne.2.2
   simp only [walk, hd, hl, Bool.false_eq_true, if_false] at h
@@ -172,7 +176,7 @@ theorem walk_paragraph (cfg : PartCfg) (num : Dict Str (List NumAttr)) (c : Bool
   clear h2
   unfold openParagraph at hop
   obtain ⟨s1a, hc, h2⟩ := bind_ok hop
-  obtain ⟨p0, ho, hruns, helem, hleaf, hq, hrg, hbl, hlin, hsty⟩ := commencePar_spec cfg.html s1 s1a _ c hc
+  obtain ⟨p0, ho, hruns, helem, hleaf, hq, hrg, hbl, hlin, hsty, hfree⟩ := commencePar_spec cfg.html s1 s1a _ c hc
   obtain ⟨bb, hb, h2⟩ := bind_ok h2
   obtain ⟨s1b, hi, h2⟩ := bind_ok h2
   have := pure_ok h2; subst this
@@ -216,7 +220,7 @@ theorem walk_paragraph (cfg : PartCfg) (num : Dict Str (List NumAttr)) (c : Bool
   simp only [hm] at h4
   obtain ⟨hl4, ho4, hq4, hrg4, hb4⟩ := concludePar_spec s3 s4 r3 hr3 h4
   have f5 := setCaret_frame s4 s' _ _ h
-  refine ⟨r3, body, bb, ?_, ?_, ?_, ?_, ?_, hbody, hbb, ?_, ?_, ?_, ?_⟩
+  refine ⟨r3, body, bb, ?_, ?_, ?_, ?_, ?_, hbody, hbb, ?_, ?_, ?_, ?_, ?_⟩
   · rw [f5.leaves, hl4, g3.root, hroot2]
   · rw [f5.openPars, ho4, g3.below, hbelow2]
   · rw [f5.queued, hq4, g3.queued]
@@ -246,5 +250,12 @@ theorem walk_paragraph (cfg : PartCfg) (num : Dict Str (List NumAttr)) (c : Bool
     have e1 : q1.style = q0.style := by
       have := congrArg (fun x => x.2.2.1) hmeta; simpa [parMeta] using this
     rw [e3, hs2, e1]; exact hsty
+  · intro hc'
+    obtain ⟨sb, hsb, hlb⟩ := hfree hc'
+    have e3 : r3.lineage = r2.lineage := by
+      have := congrArg (fun x => x.2.2.2.1) hmeta3; simpa [parMeta] using this
+    have e1 : q1.lineage = q0.lineage := by
+      have := congrArg (fun x => x.2.2.2.1) hmeta; simpa [parMeta] using this
+    exact ⟨s1, sb, h1, hsb, by rw [e3, hl2, e1]; exact hlb⟩
 
 end D2P
